@@ -225,7 +225,8 @@ func (w *world) outstanding(s int) int {
 	return n
 }
 
-// parkedClosers counts the goroutines parked in sync.WaitGroup.Wait below Scope.Close.
+// parkedClosers counts the goroutines parked (not running, not runnable) in Scope.Wait below
+// Scope.Close, whatever primitive the scope uses to wait (sync.WaitGroup, sync.Cond, ...).
 func parkedClosers() int {
 	buf := make([]byte, 1<<16)
 	for {
@@ -242,8 +243,10 @@ func parkedClosers() int {
 		if i := strings.IndexByte(g, '\n'); i >= 0 {
 			hdr = g[:i]
 		}
-		parked := strings.Contains(hdr, "[semacquire") || strings.Contains(hdr, "[sync.WaitGroup.Wait")
-		if parked && strings.Contains(g, "sync.(*WaitGroup).Wait") && strings.Contains(g, "scope.(*Scope).Close") {
+		if strings.Contains(hdr, "[running") || strings.Contains(hdr, "[runnable") {
+			continue
+		}
+		if strings.Contains(g, "scope.(*Scope).Wait(") && strings.Contains(g, "scope.(*Scope).Close(") {
 			cnt++
 		}
 	}
@@ -540,25 +543,6 @@ func runSeq(next func(w *world, step int) *sop, maxSteps int) seqResult {
 		if w.hang {
 			res.Hang = true
 			res.Ended = "hang"
-			break
-		}
-		// the model does not describe the WaitGroup after it went negative: stop there
-		if p.K == "done" && len(main) == 1 && main[0] == "SPanic" {
-			res.Ended = "negative-waitgroup"
-			break
-		}
-		if cl != nil && cl.first && atomic.LoadInt32(&cl.status) == 4 {
-			res.Ended = "closer-panic"
-			break
-		}
-		stop := false
-		for _, c := range w.closers {
-			if c.first && atomic.LoadInt32(&c.status) == 4 {
-				stop = true
-			}
-		}
-		if stop {
-			res.Ended = "closer-panic"
 			break
 		}
 	}
